@@ -1074,6 +1074,11 @@ impl<'a> Exec<'a> {
         for (k, v) in stats.ops_by_kind {
             self.out.ops_by_kind.insert(format!("{k:?}"), v);
         }
+        if let Some((_, k, _, t)) = &first_fault {
+            // which thread class met the fault, for the evidence ("on any thread")
+            let class: String = t.split('#').next().unwrap_or("").trim_end_matches(|c: char| c.is_ascii_digit()).to_string();
+            self.out.probe(&format!("fault_on:{class}:{k:?}"));
+        }
         self.out.first_fault = first_fault.map(|(q, k, p, t)| format!("op {q} {k:?} {p} on {t}"));
         // violations of runs that contain the trigger pattern of an OPEN known finding
         let open: Vec<String> = KNOWN.with(|k| k.borrow().clone());
